@@ -645,7 +645,10 @@ def chrono_limit_docs(prefix="cl"):
     for to in ("2024/", "2024/02", "abcd/", "2024/0\u3042", "2024/02/15 12:00:00", "2024/02-15 12:00:00", "2000-01", "2000", "", "\u3042", "2000-01-01T00:00:00",
                "20000101", "2000-", "2000-01-", "2000-01-01 ", "2000-01-01 00", "2000-01-01 00:00", "2000-01-01 00:00:", "\u3042\u3042\u3042\u3042-01-01 00:00:00",
                "2000\u301c01\u301c01 00:00:00", "2000.01.01 00:00:00", "-", "/", "    /", "2024\\", "2024:02:15 12:00:00",
-               "2000-01-01 00:00:00.5", "2000-01-01 00:00:00.000", "2000-01-01 00:00:00,5", "2000-01-01 00:00:00 AM", "2000-01-01 00:00:00Z"):
+               "2000-01-01 00:00:00.5", "2000-01-01 00:00:00.000", "2000-01-01 00:00:00,5", "2000-01-01 00:00:00 AM", "2000-01-01 00:00:00Z",
+               # a value that carries its own offset (RFC 3339 spellings) is not a wall-clock time either
+               "2000-01-01T00:00:00Z", "2000-01-01T00:00:00+09:00", "2000-01-01t00:00:00.5-03:30", "2000-01-01 00:00:00+09:00", "2000-01-01T00:00:00+00:00",
+               "2000-01-01 00:00:00 +00:00", "2000-01-01T00:00:00", "Sat, 01 Jan 2000 00:00:00 +0000", "946684800"):
         for ds, de in (("<", ">"), ("<!-- <", "> -->")):
             src = f'a\n{ds}tl to="{to}"{de}\nbody\n{ds}/tl{de}\nb\n'
             cid = f"{prefix}{k}"
@@ -964,7 +967,7 @@ def gen_docs(rng, tier, n_quick=2500, n_thorough=40000, **kw):
                  many_comment_cases(rng, 12 if tier == "quick" else 200),
                  control_char_cases(rng, 60 if tier == "quick" else 1000),
                  weird_tag_cases(rng, 400 if tier == "quick" else 6000), bom_cases(rng, 80 if tier == "quick" else 1500),
-                 nameless_marker_cases("nmg"))
+                 nameless_marker_cases("nmg"), chrono_limit_docs("cld"))
 
 
 TAG_VALUES = ["first paragraph\n\nsecond paragraph", "\n\n", "", "v", "a b", "x=y", "it's", 'say "hi"', "skip", "unwrap-block", "a\nb", "<", "/* <", "to", "あ", "  ", "name=x skip",
@@ -1696,7 +1699,10 @@ def occurrences(s, p):
 
 C18_TAGNAMES = G.TAGNAMES + [("time-limited", "limited"), ("marker", "removal-marker"), ("x-期限", "期限"), ("tl", "tl2"),
                              ("ab", "a"), ("a", "a-b"), ("t", "tt"), ("Übergang", "ÉTIQUETTE"), ("ΤΕΛΟΣ", "Ärmel"), ("TL", "Rm"),
-                             ("ǅ", "İ"), ("MARKER", "marker"), ("tl", "TL"), ("Rm", "rm"), ("x-Y", "X-y")]
+                             ("ǅ", "İ"), ("MARKER", "marker"), ("tl", "TL"), ("Rm", "rm"), ("x-Y", "X-y"),
+                             ("to", "name"), ("skip", "unwrap-block"), ("name", "c")]
+# tag names spelled like attribute names necessarily occur elsewhere in the document (as attributes)
+C18_ATTR_NAMED = {("to", "name"), ("skip", "unwrap-block"), ("name", "c")}
 
 
 def render_abs(s_abs, ds, de, tl, rm):
@@ -1726,7 +1732,7 @@ def gen_c18(rng, tier):
                 continue
         elif occurrences(s, ds) != n1 or occurrences(s, de) != n2:
             continue
-        if any(x in s_abs for x in (tl, rm)):
+        if any(x in s_abs for x in (tl, rm)) and (tl, rm) not in C18_ATTR_NAMED:
             continue
         cases.append(G.dcase(f"a{i}", "\x01", "\x02", s_abs, cfg0))
         cases.append(G.dcase(f"b{i}", ds, de, s, G.Cfg(tl, rm, "+00:00", G.NOW, ("x",))))
@@ -1787,6 +1793,23 @@ def gen_c19(rng, tier):
         cid = f"w{j}"
         cases.append(G.dcase(cid, ds, de, s, G.Cfg("tl", "rm", "+00:00", chain[-1][0], tuple(chain[-1][1]))))
         meta[cid] = {"stream": "history", "chain": chain, "ds": ds, "de": de}
+    # deep nesting under an unwrap-block: unwrapping removes one level, so a bound on the nesting depth would make a
+    # later run see an element the earlier one could not (depths around every power of two up to 130)
+    for j, depth in enumerate([7, 8, 15, 16, 17, 31, 32, 33, 63, 64, 65, 130]):
+        for ds, de in (("<", ">"), ("/* <", "> */")):
+            def t(b):
+                return ds + b + de
+            lines = ["start();", t('tl to="2000-01-01 00:00:00" unwrap-block'), "if (released) {"]
+            lines += [t('tl to="2999-01-01 00:00:00"')] * depth
+            lines += [t('rm name="x"'), "legacy();", t("/rm"), t('tl to="2005-01-01 00:00:00"') + "old" + t("/tl") + " keep();"]
+            lines += [t("/tl")] * depth
+            lines += ["}", t("/tl"), "end();", ""]
+            cid = f"deep{j}_{len(ds)}"
+            chain = [(978307200, []), (1136073600, []), (1136073600, ["x"])]
+            cases.append(G.dcase(cid, ds, de, "\n".join(lines), G.Cfg("tl", "rm", "+00:00", chain[-1][0], tuple(chain[-1][1]))))
+            meta[cid] = {"stream": "history", "chain": chain, "ds": ds, "de": de}
+            cases.append(G.dcase(cid + "i", ds, de, "\n".join(lines), G.Cfg("tl", "rm", "+00:00", 978307200, ("x",))))
+            meta[cid + "i"] = {"stream": "idempotence"}
     # known finding KF3: an unwrap-block whose wrapper lines are blank; removing its only inner element
     # first lets the blank-line tidying reduce the lines between its tags to one, and it is never unwrapped
     KF3 = "KF3 blank wrapper line: an earlier run leaves fewer than two lines between the tags of an unwrap-block, which is then never unwrapped"
@@ -2132,6 +2155,11 @@ def run_cli_cases(cases, work, tag):
             if ti == 1:
                 env["LANG"] = "ja_JP.UTF-8"
                 env["LC_ALL"] = "C"
+                env["NO_COLOR"] = "1"
+                env["TERM"] = "dumb"
+            if ti == 2:
+                env["CLICOLOR_FORCE"] = "1"
+                env["FORCE_COLOR"] = "3"
             p = subprocess.run(argv, input=(srcb if inr == "S" else b""), stdout=subprocess.PIPE, stderr=subprocess.PIPE, env=env, timeout=60)
             if p.returncode not in (0, 1):
                 outs.append("CRASH")
